@@ -15,18 +15,11 @@ import AdaptixProofs.Lemmas.GenericResolve
 import AdaptixProofs.Lemmas.GenericInv
 import AdaptixProofs.Lemmas.GenericMro
 import AdaptixProofs.Lemmas.GenericPydantic
+import AdaptixProofs.Lemmas.GenericWitness
 
 namespace Adaptix.Generic.C16
 
 open Adaptix.Generic
-
-/-- The property for one class table: for every class of the table, used bare
-    or with any arguments, and every field id, the type the resolver hands to
-    the loader/dumper machinery is the declared type (both are `none` exactly
-    when the class has no such field). -/
-def ResolveEqSpec (H : Hierarchy) : Prop :=
-  ∀ (tgt : Base), tgt.cls < H.classes.length → ∀ (k : Key),
-    (resolve H tgt).lookup k = declaredType H tgt k
 
 /-
   Full-strength statement (what C16 asks for):
@@ -218,29 +211,6 @@ theorem resolved_closed (H : Hierarchy) (hwf : Wf H) (hp : PrecedenceAgrees H)
 
 /-! ### The full-strength statement is refuted by two concrete class tables -/
 
-def intH : Hint := .atom "int" false
-def strH : Hint := .atom "str" false
-def listOf (t : Hint) : Hint := .app (.con "List") t
-
-/-- ```
-    class A(Generic[T]):          a: T
-    class B(A[int]):              pass
-    class C(A[int], Generic[U]):  a: List[U]
-    class D(B, C[str]):           pass          # MRO: D, B, C, A
-    ```
-    `D.a` is annotated by `C` (`List[U]`, `U = str`), the resolver answers with
-    what the leftmost base `B` says about `a`: `int`. -/
-def diamondWitness : Hierarchy where
-  kind := .dataclass
-  tvars := [(0, ⟨[], none⟩), (1, ⟨[], none⟩)]
-  classes := [
-    { params := [0], ownOrigBases := some [], bases := [], mro := [0], ownAnn := [("a", .tv 0)] },
-    { params := [], ownOrigBases := some [⟨0, some [intH]⟩], bases := [⟨0, none⟩], mro := [1, 0], ownAnn := [] },
-    { params := [1], ownOrigBases := some [⟨0, some [intH]⟩], bases := [⟨0, none⟩], mro := [2, 0],
-      ownAnn := [("a", listOf (.tv 1))] },
-    { params := [], ownOrigBases := some [⟨1, none⟩, ⟨2, some [strH]⟩], bases := [⟨1, none⟩, ⟨2, none⟩],
-      mro := [3, 1, 2, 0], ownAnn := [] }]
-
 theorem diamond_witness_wf : Wf diamondWitness ∧ OverrideVisible diamondWitness := by decide
 
 theorem diamond_witness_values :
@@ -256,20 +226,6 @@ theorem resolve_eq_spec_refuted_diamond :
   have := h diamondWitness diamond_witness_wf.1 diamond_witness_wf.2 rfl ⟨3, none⟩ (by decide) "a"
   rw [diamond_witness_values.1, diamond_witness_values.2] at this
   exact absurd this (by decide)
-
-/-- ```
-    class P(TypedDict, Generic[T]):     a: T
-    class C(P[int], Generic[U]):        a: List[U]
-    ```
-    `C[str].a` is `List[str]`; `get_typed_dict_shape` reports no overridden
-    field, so the resolver replaces the re-annotation by the parent's `int`. -/
-def typedDictWitness : Hierarchy where
-  kind := .typedDict
-  tvars := [(0, ⟨[], none⟩), (1, ⟨[], none⟩)]
-  classes := [
-    { params := [0], ownOrigBases := some [], bases := [], mro := [0], ownAnn := [("a", .tv 0)] },
-    { params := [1], ownOrigBases := some [⟨0, some [intH]⟩], bases := [], mro := [1, 0],
-      ownAnn := [("a", listOf (.tv 1))] }]
 
 theorem typeddict_witness_wf : Wf typedDictWitness ∧ PrecedenceAgrees typedDictWitness := by decide
 
@@ -297,21 +253,10 @@ theorem resolve_eq_spec_fails : ¬ (∀ H : Hierarchy, Wf H → ResolveEqSpec H)
     ```
     class G(Generic[T0, T1]):               a: T0 ; b: List[T1]
     class P(G[int, T2], Generic[T2, T3]):   c: T3
-    class Q(P[T1, T0], Generic[T0, T1]):    a: Dict-free override `str`
+    class Q(P[T1, T0], Generic[T0, T1]):    a: str      # shadowing, parameters swapped
     class R(Q):                             pass        # bare generic base
-    ```  -/
-def sample : Hierarchy where
-  kind := .attrs
-  tvars := [(0, ⟨[], none⟩), (1, ⟨[], some intH⟩), (2, ⟨[], none⟩), (3, ⟨[intH, strH], none⟩)]
-  classes := [
-    { params := [0, 1], ownOrigBases := some [], bases := [], mro := [0],
-      ownAnn := [("a", .tv 0), ("b", listOf (.tv 1))] },
-    { params := [2, 3], ownOrigBases := some [⟨0, some [intH, .tv 2]⟩], bases := [⟨0, none⟩], mro := [1, 0],
-      ownAnn := [("c", .tv 3)] },
-    { params := [0, 1], ownOrigBases := some [⟨1, some [.tv 1, .tv 0]⟩], bases := [⟨1, none⟩], mro := [2, 1, 0],
-      ownAnn := [("a", strH)] },
-    { params := [], ownOrigBases := none, bases := [⟨2, none⟩], mro := [3, 2, 1, 0], ownAnn := [] }]
-
+    ```
+    (`sample` in Lemmas/GenericWitness.lean; T1 bound to int, T3 constrained) -/
 example : Wf sample ∧ PrecedenceAgrees sample ∧ OverrideVisible sample ∧ MroMonotone sample ∧ NoConflict sample := by
   decide
 
